@@ -25,10 +25,29 @@ def rand_lattice(rs, kind=None):
 
 
 def hermitize(system):
-    """make every real-space matrix satisfy X(-R) = X(R)^dagger (the R set is completed with -R by the code)"""
+    """make every real-space matrix satisfy X(-R) = X(R)^dagger.  The random generator's R set is in general NOT
+    closed under R -> -R, so first complete it (zero-padding the matrices), then average X with its conjugate."""
+    from wannierberri.fourier.rvectors import Rvectors
+    iR = [tuple(int(x) for x in r) for r in system.rvec.iRvec]
+    have = set(iR)
+    extra = [tuple(-x for x in r) for r in iR if tuple(-x for x in r) not in have]
+    extra = list(dict.fromkeys(extra))
+    if extra:
+        new_iR = np.array(iR + extra, dtype=int)
+        for key in list(system._XX_R):
+            X = system.get_R_mat(key)
+            pad = np.zeros((len(extra),) + X.shape[1:], dtype=X.dtype)
+            system._XX_R[key] = np.concatenate([X, pad], axis=0)
+        system.rvec = Rvectors(lattice=system.real_lattice, iRvec=new_iR, shifts_left_red=system.wannier_centers_red)
+        if hasattr(system, "iRvec"):
+            try:
+                system.iRvec = new_iR
+            except Exception:
+                pass
     for key in list(system._XX_R):
         X = system.get_R_mat(key)
-        system.set_R_mat(key, 0.5 * (X + system.rvec.conj_XX_R(X, ignore_mR_not_found=True)), reset=True)
+        system._XX_R[key] = 0.5 * (X + system.rvec.conj_XX_R(X))
+    system.clear_cached_R()
 
 
 def rand_system(rs, num_wann=3, nR=7, max_R=2, lattice=None, matrices=("Ham", "AA"), centers=None,
